@@ -13,7 +13,7 @@ import (
 // aff is an affine form cL·L + cK·k + c0 over the length L of the cleanup stack and the loop counter k.
 type aff struct {
 	cL, cK, c0 int64
-	ok        bool
+	ok         bool
 }
 
 func (a aff) add(b aff) aff { return aff{a.cL + b.cL, a.cK + b.cK, a.c0 + b.c0, a.ok && b.ok} }
